@@ -43,6 +43,9 @@ def run(ck):
                 t = rng.choice(["", "\n", "// nothing here\n", "module Empty%d\n" % j])
             else:
                 t = fill(CLEAN, j)
+            # suppressions written in the file itself (file level, all or one lint): they silence lints, never an error
+            if t.lstrip().startswith(("module", "[", "//", "#")) and rng.random() < 0.3:
+                t = rng.choice(["[[allow(All)]]\n", "[[allow(All)]]\n", "[[allow(Deprecated)]]\n", "[[allow(BrokenDocLink, IncorrectDocComment)]]\n", "[[allow(All)]] [[x::y]]\n"]) + t
             files.append((role, "f%d.slice" % j, t))
         extra = ["--diagnostic-format", "json"]
         if kind == "io":
@@ -80,7 +83,7 @@ def run(ck):
         gens, gfail = [], []
         for g in range(ng):
             reply = dc.enc_reply([("gen%d_%d.txt" % (g, k), "content %d" % k) for k in range(rng.choice([0, 1, 2]))])
-            how = rng.choice(["reply", "reply", "reply", "exit1", "missing", "stderr"])
+            how = rng.choice(["reply", "reply", "reply", "reply", "exit1", "missing", "stderr", "sigkill", "sigsegv", "exit255"])
             gens.append(("gen-%s-%d" % (how, g), rng.choice([None, "k=v"]), reply if how == "reply" else None))
             gfail.append(how)
         if kind in ("clean", "error", "warn") and rng.random() < 0.25:
@@ -95,11 +98,11 @@ def run(ck):
     o = dc.run_all(lines)
     ck.stream("driver", description="the real slicec binary in a scratch directory: programs that are clean / warnings only (deprecated use, broken link, misplaced tag) / one error of each phase "
               "(missing file, non-.slice source, directory as source, preprocessor, syntax, file without module, unknown attribute, unresolved type, cycle, redefinition, rule violation) in any one of 1-3 files "
-              "(sources and references) x 0..3 generators (reply-writing, or failing: exit 1, missing executable, stderr output) x the same source listed twice (DuplicateFile warning) x --dry-run x -A lists x output directory. Compared with the driver model: which generators were started, which files appeared, the exit status, "
+              "(sources and references) x 0..3 generators (reply-writing, or failing: exit 1, exit 255, killed by a signal, missing executable, stderr output) x suppressions written in the files themselves ([[allow(All)]] and others) x the same source listed twice (DuplicateFile warning) x --dry-run x -A lists x output directory. Compared with the driver model: which generators were started, which files appeared, the exit status, "
               "the number of error diagnostics on stderr (JSON).")
     mlines = []
     for md in metas:
-        beh = {"reply": lambda r: "run:1:0:0:%s" % r.hex(), "exit1": lambda r: "run:1:0:1:-", "missing": lambda r: "missing", "stderr": lambda r: "run:1:1:0:0000"}
+        beh = {"reply": lambda r: "run:1:0:0:%s" % r.hex(), "exit1": lambda r: "run:1:0:1:-", "exit255": lambda r: "run:1:0:1:-", "sigkill": lambda r: "run:1:0:1:-", "sigsegv": lambda r: "run:1:0:1:-", "missing": lambda r: "missing", "stderr": lambda r: "run:1:1:0:0000"}
         mlines.append("main %s %d G %s FS" % ("E" if md["has_err"] else ("L" if md["kind"] == "warn" or md["dup"] else "-"), 1 if md["dry"] else 0,
                                               " ".join(beh[h](r) for (_, _, r), h in zip(md["gens"], md["gfail"]))))
     m = core.run_model("main", mlines)
